@@ -190,6 +190,18 @@ def _run_case(case: dict) -> Result:
                 break
             bad = _window(S0, ids1, child_before_tok)
             gone_unowned = [t for t in S0 if id(t) not in ids1 and id(t) not in child_before_tok and type(t).__name__ == 'BlockComment' and not t.claimed]
+            if bad is not None and gone_unowned and child_before_tok:
+                # the open finding is about a comment in the gap NEXT TO the removed child: only blanks, line breaks, indents, other comments and
+                # zero-width marks between the two; an unowned comment that disappears from anywhere else is not it
+                pos = [i for i, t in enumerate(S0) if id(t) in child_before_tok]
+                gap = lambda t: t.raw_text == '' or type(t).__name__ in ('Whitespace', 'Newline', 'Indent', 'BlockComment', 'Eol')   # noqa: E731
+                lo, hi = min(pos), max(pos)
+                while lo > 0 and gap(S0[lo - 1]):
+                    lo -= 1
+                while hi + 1 < len(S0) and gap(S0[hi + 1]):
+                    hi += 1
+                near = {id(t) for t in S0[lo:hi + 1]}
+                gone_unowned = [t for t in gone_unowned if id(t) in near]
             if bad is not None and gone_unowned:
                 bad = gone_unowned[0]
                 res.bad('unowned-comment-removed-with-neighbour', f'{what}: the unowned comment {texts0[id(bad)]!r} next to the removed child was deleted with it; '
